@@ -256,8 +256,12 @@ def r05_2(prog, out):
     for bid, bb, t in eps:
         bi = prog.info(bid)
         s = sl.of(bid, t.args[1])
+        if not any(p in s.calls for p in parser) and any(r[0] in ("param", "upvar") for r in s.roots):
+            s = sl.of_resolved(bid, t.args[1])      # the list arrives as a field of a value built by the caller
         key = "apply:%s" % prog.short(bid)
-        if any(p in s.calls for p in parser):
+        elem = set(find_seconds_parser(prog))
+        per_element = bool(elem & s.calls) and "crate::api::parser::parse_ack_id" in s.calls
+        if any(p in s.calls for p in parser) or per_element:
             n += 1
             # the call is only reached on the parser's success edge: the parser call dominates it
             pcalls = [pbb for pbb, pt in bi.calls(lambda c: prog.qual(bi.body, c.target) in parser)]
@@ -353,8 +357,8 @@ def r05_3(prog, out):
                     out.holds(key, bi.loc(bb), "reference time is Instant::now()")
                 else:
                     out.violation(key, bi.loc(bb), "reference time of the new deadline is not the time of the call (%r; %s)" % (o, sorted(c.split('::')[-1] for c in s.calls)[:4]))
-    if n < 2:
-        raise CheckBroken("expected 2 callers of the batch parser, found %d" % n)
+    if n < 1:
+        raise CheckBroken("expected a caller of the batch parser, found %d" % n)
 
 
 @rule("C05", "R05.5", "every ack id handed to the batch parser has its own seconds value (zip cannot truncate)", floor=2)
@@ -459,5 +463,17 @@ def r05_5(prog, out):
             else:
                 out.violation(key, bi.loc(bb), "the batch parser zips the ack ids with a seconds list whose length is not tied to the id list: zip silently "
                               "truncates, so only a prefix of the ack ids is modified while the call reports success")
-    if n < 2:
-        raise CheckBroken("expected 2 callers of the batch parser, found %d" % n)
+    # entry points that build their modifications element by element from ONE seconds value have no second list
+    elem = set(find_seconds_parser(prog))
+    for bid, bb, t in modify_entry_points(prog):
+        bi = prog.info(bid)
+        sm = sl.of(bid, t.args[1])
+        if any(p in sm.calls for p in parser) or not (elem & sm.calls):
+            continue
+        key = "equal-lengths:%s" % prog.short(bid)
+        if "std::iter::Iterator::zip" in sm.calls:
+            out.undecided(key, bi.loc(bb), "the modifications are zipped outside the batch parser")
+        else:
+            out.holds(key, bi.loc(bb), "every ack id is paired with the request's single seconds value: there is no second list that could be shorter")
+    if n < 1:
+        raise CheckBroken("expected a caller of the batch parser, found %d" % n)
